@@ -15,14 +15,14 @@ CHECKS = [
         property_id="C03",
         text="Bounded symbolic model checking of the real transform pipeline and base discretizers: (O3.1) symbolic boundaries b1<...<b(m-1)+inf, every contiguous grouping applied through the real convert_to_labels/group_list/convert_to_values, a real BaseDiscretizer fitted and two symbolic probe rows x1<=x2 transformed: z3 proves on every path that the label is that of the first group whose leader >= x, leaders are group maxima and the float output is monotone; (O3.2) real find_quantiles/fit_feature on symbolic reals: boundaries sorted, observed, +inf last; (O3.3) real OrdinalDiscretizer.fit with solver-chosen counts, symbolic target and symbolic min_freq: groups are contiguous runs of the ranking; (O3.4) real CategoricalDiscretizer/QualitativeDiscretizer.fit with solver-chosen sizes and positives: fitted order is sorted by training target rate, NaN last; (O3.6) complete fits on symbolic columns.",
         design_ref="DESIGN.md 6/C03",
-        note="Bounds: m<=4 (quick)/6 (thorough) boundaries; n<=9/12 sorted or <=4/6 unsorted symbolic rows; ordinal m<=4/5 modalities, N<=6/10 rows. Rebindings R1,R2,R3 (DESIGN 3.4). k<=3/4 categories.",
+        note="Bounds: m<=4 (quick)/6 (thorough) boundaries; n<=9/12 sorted or <=4/6 unsorted symbolic rows; ordinal m<=4/5 modalities, N<=6/10 rows. Rebindings R1,R2,R3 (DESIGN 3.4). k<=3/4 categories. The user's ranking is supplied as list, numpy array, GroupedList and dict-form GroupedList.",
         technique=TECH,
     ),
     dict(
         property_id="C04",
         text="Bounded symbolic model checking of the real label table and transform kernel: symbolic boundaries, every contiguous grouping, NaN absent/alone/merged, both output dtypes: z3 proves transform output = label of the first group whose upper bound >= value, float labels = group ranks, members carry their group's label, NaN rows per dropna; qualitative features on a solver-chosen frame over a concrete category universe (incl. numeric-valued members). Label-text injectivity (O4.2): z3 finds reals sharing a %.Pe rounding cell, witnesses replayed on the real get_labels and a real BinaryCarver.fit.",
         design_ref="DESIGN.md 6/C04",
-        note="O4.2 is witness-based (z3 produces colliding candidates for the documented 4-significant-digit format and adjacent doubles; the real code must separate them). Category text is concrete. m<=4/6 boundaries.",
+        note="O4.2 is witness-based (z3 produces colliding candidates for the documented 4-significant-digit format and adjacent doubles; the real code must separate them). Category text is concrete. m<=4/6 boundaries. O4.4: concrete dtype/magnitude grid (int64/uint64/nullable columns up to 2**60, float32, object) with the mapping compared in exact integer arithmetic.",
         technique=TECH + "; SMT rounding-cell query for label text",
         crosshair=False,
     ),
@@ -30,21 +30,21 @@ CHECKS = [
         property_id="C05",
         text="Bounded symbolic model checking of transform on unseen data: quantitative probe rows are unconstrained symbolic reals (inside, outside, on the boundaries), NaN rows, empty and single-row frames: z3 proves every output is a fitted label, no exception on finite values, AssertionError naming the feature on unexpected NaN; qualitative rows are solver-chosen among known members, unseen values and NaN for six fitted configurations (with/without default group).",
         design_ref="DESIGN.md 6/C05",
-        note="Qualitative category text is concrete (pandas.replace compares natively): the symbolic variable is which value each row takes. m<=4/6 boundaries, frames <=2/3 rows.",
+        note="Qualitative category text is concrete (pandas.replace compares natively): the symbolic variable is which value each row takes. m<=4/6 boundaries, frames <=2/3 rows. O5.5: manually edited objects (update_discretizer sequences) never leak raw values.",
         technique=TECH,
     ),
     dict(
         property_id="C08",
         text="Bounded symbolic model checking of the fit kernels: real find_quantiles/np_find_quantiles/fit_feature on symbolic reals (no internal error, unique strictly increasing leaders, partition invariant), real OrdinalDiscretizer.fit with solver-chosen counts / symbolic target / symbolic min_freq (terminates, well-formed partition).",
         design_ref="DESIGN.md 6/C08",
-        note="n<=9/12 rows sorted, <=4/6 unsorted; q in 2..10; ordinal m<=4/5. API tier: complete fits of BinaryCarver, ContinuousCarver, Discretizer, QuantitativeDiscretizer, ContinuousDiscretizer on symbolic columns (attributes coherent, partition well formed, dropped features untouched).",
+        note="n<=9/12 rows sorted, <=4/6 unsorted; q in 2..10; ordinal m<=4/5. API tier: complete fits of BinaryCarver, ContinuousCarver, Discretizer, QuantitativeDiscretizer, ContinuousDiscretizer on symbolic columns (attributes coherent, partition well formed, dropped features untouched). O8.8 also re-fits an object whose first fit was refused because of X_dev and compares it with a fresh object.",
         technique=TECH,
     ),
     dict(
         property_id="C09",
         text="Bounded symbolic model checking of the base discretizers' min_freq contract: real OrdinalDiscretizer.fit (every bucket >= min_freq of the rows unless one remains, NaN separate) for symbolic min_freq in (0,0.5]; real find_quantiles (strictly increasing observed boundaries then inf, every value with count >= len/q is a boundary, no bucket free of frequent values above 2.5*len/q rows); real CategoricalDiscretizer.fit (a value is in the default group iff rarer than min_freq, NaN separate); complete QuantitativeDiscretizer/Discretizer fits (every bucket >= min_freq/2 unless one remains).",
         design_ref="DESIGN.md 6/C09",
-        note="Quantitative claim is stated through q = round(1/min_freq) in 2..10; frequencies compared as one float division (F3/F4).",
+        note="Quantitative claim is stated through q = round(1/min_freq) in 2..10; frequencies compared as one float division (F3/F4). A fitted bucket that holds no training row counts as a bucket with 0 rows.",
         technique=TECH,
     ),
 
@@ -52,14 +52,14 @@ CHECKS = [
         property_id="C01",
         text="Bounded symbolic model checking of the carvers' selection logic: the real _get_best_combination (with the real enumeration, grouping, viability, ordering and NaN-placement code) runs on pandas crosstabs whose cells are symbolic; (a) with one unconstrained symbolic measure value per distinct grouped table the solver proves, on every path, that the returned grouping is viable per the property text and that no viable candidate of an independent specification-side enumeration has a strictly larger measure, for ANY association measure incl. ties; that a feature is dropped only when no candidate is viable; that the measured table is exactly the grouped sum; (b) the same with the real chi2-based measures on solver-chosen concrete crosstabs (realisable witnesses); (c) the ContinuousCarver's selection logic on symbolic target values per modality with an abstract Kruskal value; (d) complete BinaryCarver/ContinuousCarver fits on symbolic columns compared with an independent brute-force oracle using the real measures.",
         design_ref="DESIGN.md 6/C01",
-        note="k<=3 (quick)/4 (thorough) base modalities + NaN row, selected row totals (concrete, F3), symbolic positives, min_freq_mod concrete or any real in (0,0.5], max_n_mod 2..3, with/without dev crosstab (incl. absent modality, represented as the real _aggregator produces it). Rank agreement under rate ties is judged with a strict and a weak reading (either decision accepted). Counterexamples of the abstract-measure obligation are reported only if they replay with the real measure. Continuous targets at kernel level range over the integer domain -2..2 (exact float means, F3).",
+        note="k<=3 (quick)/4 (thorough) base modalities + NaN row, selected row totals (concrete, F3), symbolic positives, min_freq_mod concrete or any real in (0,0.5], max_n_mod 2..3, with/without dev crosstab (incl. absent modality, represented as the real _aggregator produces it). Rank agreement under rate ties is judged with a strict and a weak reading (either decision accepted). Counterexamples of the abstract-measure obligation are reported only if they replay with the real measure. Continuous targets at kernel level range over the integer domain -2..2 (exact float means, F3). O1.7: IEEE-double lemma (z3 FloatingPoint, bit-blasted): the frequency a group is judged on is bit-identical to count/N for all two-modality crosstabs with cells <=15/255; refuting tables are confirmed through BinaryCarver.fit.",
         technique=TECH,
     ),
     dict(
         property_id="C02",
         text="Same symbolic exploration of the real selection logic as C01 with the bound assertions of C02: number of groups (NaN group included) <= max_n_mod, every group's train/dev share >= min_freq_mod (one float division, as a user computes it), dev ranking agrees, NaN untouched when dropna=False; plus _printer's frequency/target_rate equal their definitions on symbolic tables and min_freq_mod defaults to min_freq/2 for every real min_freq.",
         design_ref="DESIGN.md 6/C02",
-        note="Bounds as C01. The literal statement on transformed frames (label counts after transform) is covered by the API-tier obligations.",
+        note="Bounds as C01. The literal statement on transformed frames (label counts after transform) is covered by the API-tier obligations. O2.6: the same IEEE-double lemma as O1.7 (min_freq_mod boundary).",
         technique=TECH,
     ),
     dict(
@@ -82,7 +82,7 @@ CHECKS = [
         property_id="C12",
         text="Bounded symbolic model checking of MulticlassCarver against its specification: on every path of complete real fits on a symbolic quantitative column (all weak orderings), for surjective class patterns onto 3 classes with int, str and string-sort-differs labels, optional dev frame and an explicit min_freq_mod, every column f_ci equals BinaryCarver(same parameters).fit(X, 1[y=ci]).transform(X)[f], is present iff that carver keeps f, classes are taken in string-sorted order with the first skipped, raw column unchanged, inputs untouched. Name injectivity (O12.2) is decided by CrossHair on the real append_class and replayed at API level.",
         design_ref="DESIGN.md 6/C12",
-        note="n=4 (quick)/4-5 rows, 5/16 class patterns per shape. Two open known findings (KF-C12-1/2: f'{feature}_{class}' is not injective and may equal a raw feature name); CrossHair confirms uniqueness under the recorded exclusion (no '_' in class labels, equal-length feature names, <=4 chars).",
+        note="n=4 (quick)/4-5 rows, 5/16 class patterns per shape. Two open known findings (KF-C12-1/2: f'{feature}_{class}' is not injective and may equal a raw feature name); CrossHair confirms uniqueness under the recorded exclusion (no '_' in class labels, equal-length feature names, <=4 chars). Transform is also applied to frames that already hold columns named like the generated ones and to an already transformed frame.",
         technique=TECH + "; CrossHair (z3 sequence theory) for column names",
         crosshair=True,
     ),
@@ -107,14 +107,14 @@ CHECKS = [
         property_id="C10",
         text="Bounded symbolic model checking of feature independence and schedule independence: complete real fits (BinaryCarver, Discretizer[, ContinuousCarver]) of a symbolic quantitative feature alone, together with quantitative/qualitative/numeric-valued companions, with reordered feature lists and DataFrame columns, under every solver-chosen iteration order of set(features) (all hash seeds) and with n_jobs in {2,3} through an in-process pool that pickles arguments/results and returns them in every solver-chosen completion order: values_orders['f'] and transform output are identical on every path; parallel == sequential for all features.",
         design_ref="DESIGN.md 6/C10",
-        note="Real OS processes are outside the claim: only the order effects of hashing and scheduling are modelled, under the assumption (true for multiprocessing.Pool) that workers share no memory with the parent. n=3 (quick)/3-4 symbolic rows.",
+        note="Real OS processes are outside the claim: only the order effects of hashing and scheduling are modelled, under the assumption (true for multiprocessing.Pool) that workers share no memory with the parent. n=3 (quick)/3-4 symbolic rows. Companions include int64- and float32-coded qualitative features (dtype promotion across features).",
         technique=TECH + "; schedules and hash orders as solver-chosen permutations",
     ),
     dict(
         property_id="C11",
         text="Bounded symbolic, relational model checking of invariances: find_quantiles and complete carver fits are run on x and on a second symbolic column x' constrained to be order-isomorphic (covers every strictly increasing map, hence exact a*x+b, a>0): same bucket per row, same kept features, same induced row partition; solver-chosen row permutations with index relabelling (offset, shuffled ints, strings) give the same result; order-preserving renamings of qualitative categories and ordinal rankings (positives per category solver-chosen) give the same result.",
         design_ref="DESIGN.md 6/C11",
-        note="n<=4 (quick)/5 rows at kernel level, 3/3-4 at API level; 3-4 categories. Rounding of a*x+b itself is outside the claim.",
+        note="n<=4 (quick)/5 rows at kernel level, 3/3-4 at API level; 3-4 categories. Rounding of a*x+b itself is outside the claim. The order-isomorphic second column also ranges over exactly representable images under a large offset / a tiny unit (neighbouring doubles far closer than any tolerance).",
         technique=TECH + "; relational (two-run) path conditions",
     ),
     dict(
